@@ -1368,6 +1368,9 @@ func runWorld(w *world) (obs Obs) {
 	}
 	note := func(chs []k8s.VerifChange, problems int) {
 		obs.Problems += problems
+		if os.Getenv("VERIF_C07_DEBUG") != "" && len(chs) > 1 {
+			fmt.Fprintln(os.Stderr, "BATCH", chs)
+		}
 		for _, c := range chs {
 			if c.Err != "" {
 				obs.Errors = append(obs.Errors, c.Op+" "+c.Kind+" "+c.Key+": "+firstLine(c.Err))
